@@ -148,3 +148,32 @@ Theorem C03_from_arg_is_the_source : forall {C} (keq : C -> C -> bool) (is_str :
   PCD.Gen.SrcFromArg.from_arg keq is_str none_c a bt freevars st = from_arg keq is_str none_c a bt freevars st.
 Proof. exact @SrcFromArgTie.from_arg_tie. Qed.
 Print Assumptions C03_from_arg_is_the_source.
+
+(* Tie of the jump relaxation to the current source.  The per-instruction bodies of the two passes inside
+   `while changed_instruction_lengths:` are re-translated on every run (Gen/SrcLines.v: RelaxPass1, RelaxPass2).
+   For ALL instructions, operand values, offsets and flag values the body of pass 2 computes model_step2 - the size of
+   the instruction, the running offset, the new jump operand (relative jumps from the offset AFTER the instruction,
+   scaled by the interpreter's unit) and the flag, which a pass can only raise; and the model's update_jumps is the
+   left-to-right iteration of model_step2.  C03_relaxation_consistent / C03_to_code_terminates above are therefore about
+   the loop body the source has now. *)
+From PCD Require Base.PyImp Gen.SrcLines Proofs.SrcRelaxTie.
+Theorem C03_relaxation_step_is_the_source : forall {C} c offs (i : instr_ C) v s,
+  match SrcRelaxTie.model_step2 c offs i v (PCD.Gen.SrcLines.RelaxPass2.v_current_instruction_offset s)
+          (PCD.Gen.SrcLines.RelaxPass2.v_changed_instruction_lengths s) with
+  | OK (cur', nv, ch') =>
+      exists s', PCD.Gen.SrcLines.RelaxPass2.step (i_nargs i) v (cfg_v310 c) (SrcRelaxTie.is_jump (i_arg i))
+                   (SrcRelaxTie.jump_target_offset offs (i_arg i)) (SrcRelaxTie.jump_rel (i_arg i)) s = OK s'
+        /\ PCD.Gen.SrcLines.RelaxPass2.v_current_instruction_offset s' = cur'
+        /\ PCD.Gen.SrcLines.RelaxPass2.v_changed_instruction_lengths s' = ch'
+        /\ PCD.Gen.SrcLines.RelaxPass2.v_out_arg s' =
+           (if SrcRelaxTie.is_jump (i_arg i) then Some nv else PCD.Gen.SrcLines.RelaxPass2.v_out_arg s)
+  | Err e => PCD.Gen.SrcLines.RelaxPass2.step (i_nargs i) v (cfg_v310 c) (SrcRelaxTie.is_jump (i_arg i))
+               (SrcRelaxTie.jump_target_offset offs (i_arg i)) (SrcRelaxTie.jump_rel (i_arg i)) s = Err e
+  end.
+Proof. intros C c offs i v s. exact (SrcRelaxTie.pass2_step_tie c offs i v s). Qed.
+Print Assumptions C03_relaxation_step_is_the_source.
+
+Theorem C03_update_jumps_is_the_iteration_of_that_step : forall {C} c offs (l : list (instr_ C)) vals cur,
+  update_jumps c l vals offs cur = SrcRelaxTie.run2 c offs l vals cur false.
+Proof. intros. apply SrcRelaxTie.update_jumps_is_the_iteration. Qed.
+Print Assumptions C03_update_jumps_is_the_iteration_of_that_step.
